@@ -505,6 +505,9 @@ add(Contract("yarl._query:get_str_query_from_iterable", [("items", "pairs")], sp
 add(Contract("yarl._query:get_str_query_from_sequence_iterable", [("items", "seqpairs")], spec=spec_query.str_query_from_seq_pairs,
              raises=(TypeError, ValueError), props=("C12", "C19"),
              note="mapping items: a list / tuple value repeats the key (0, 1, 2 items; str, int, [str, str], (str, str) values)"))
+add(Contract("yarl._url:URL.update_query", [("self", URLT), ("args", ("varargs", CONST(None, "", b"x", 5, 1.5)))],
+             spec=spec_query.update_query_trivial, raises=(TypeError, ValueError), props=("C12", "C11", "C19"),
+             note="only the argument forms that involve no multi-dict: None, '', wrong arity, non-query types"))
 add(Contract("yarl._url:URL.with_query", [("self", URLT), ("args", ("varargs", _QARG))], spec=spec_query.with_query_args,
              raises=(TypeError, ValueError), props=("C12", "C11", "C19"),
              note="None and str arguments (mapping / sequence forms go through external multidict and are not under contract)"))
